@@ -29,18 +29,22 @@ type SimDisk struct {
 	Objects map[string][]byte // "bucket\x00object" -> content
 	Buckets map[string]bool
 	Log     []WriteRec // committed changes, in order
+	// FailCloseN makes the N-th Close call (0-based, counted from the moment it is set) fail
+	// without committing: a lost write. -1 / zero value with closes==0 semantics: see NewSimDisk.
+	FailCloseN int
+	closes     int
 }
 
 // NewSimDisk returns an empty store.
 func NewSimDisk(r *core.Run, plan *FaultPlan) *SimDisk {
-	return &SimDisk{R: r, Plan: plan, Objects: map[string][]byte{}, Buckets: map[string]bool{}}
+	return &SimDisk{R: r, Plan: plan, Objects: map[string][]byte{}, Buckets: map[string]bool{}, FailCloseN: -1}
 }
 
 func okey(bucket, object string) string { return bucket + "\x00" + object }
 
 // Snapshot returns a deep copy of the durable state (log not included).
 func (d *SimDisk) Snapshot() *SimDisk {
-	c := &SimDisk{R: d.R, Plan: d.Plan, Objects: map[string][]byte{}, Buckets: map[string]bool{}}
+	c := &SimDisk{R: d.R, Plan: d.Plan, Objects: map[string][]byte{}, Buckets: map[string]bool{}, FailCloseN: -1}
 	for k, v := range d.Objects {
 		c.Objects[k] = append([]byte(nil), v...)
 	}
@@ -169,6 +173,12 @@ func (w *simWriter) Close() error {
 	if w.poisoned {
 		w.d.Plan.Next(site+"[poisoned]", false)
 		return Err(site + " after failed write")
+	}
+	n := w.d.closes
+	w.d.closes++
+	if n == w.d.FailCloseN {
+		w.d.R.Fault("lost-write", "%s", site)
+		return Err(site)
 	}
 	switch w.d.Plan.Next(site, true) {
 	case ErrBefore:
